@@ -2,7 +2,7 @@
 #include "w2c2_base.h"
 #include "wasm_int.h"
 #include "trapstub.h"
-#include "/verif/.work_wt/C05-12056/memrec/memrec.h"
+#include "/verif/.work_wt/C05-30205/memrec/memrec.h"
 #include "c05mem.c"
 #include "wasm_int.h"
 #include "libm_markers.h"
